@@ -314,19 +314,24 @@ def run(ctx):
             chk.ob("C15.b", mm.path, got == want, f"{got}" if got == want else f"Matcher::matches table is {got}, expected {want}", mm.loc())
         sn = one_method(chk, "C15.b", p, f"{P}::common::Matcher", "sanitized")
         if sn:
-            arms = enum_arms(sn, "common::Matcher")
+            # per variant: what sanitized() returns when self is that variant — the same variant around the sanitised
+            # pattern, however the dispatch is spelled (three arms, or one arm choosing a constructor)
+            from facts import SpecialisedFn
+
+            arms = True
             bad = []
-            for v, a in (arms or {}).items():
-                if v == "__switch__":
-                    continue
-                built = []
-                for i in sorted(a["blocks"]):
-                    for s in sn.body.blocks[i]["s"]:
-                        if s["k"] == "assign" and s["rv"]["k"] == "agg" and (s["rv"].get("adt") or "").endswith("common::Matcher"):
-                            built.append(s["rv"]["variant"])
-                san = [c for c in a["calls"] if c.is_("formatting::sanitize_metric_name")]
-                if built != [v] or len(san) != 1:
-                    bad.append((v, built))
+            for v in ("Full", "Prefix", "Suffix"):
+                sp = SpecialisedFn(sn, 1, v)
+                r = strip_sym(Sym(sp).local(0))
+                same_variant = (r[0] == "agg" and r[2] == v and (r[1] or "").endswith("common::Matcher")) or (r[0] == "call" and isinstance(r[1], str) and strip_generics(r[1]).endswith(f"common::Matcher::{v}"))
+                if r[0] == "call" and isinstance(r[1], tuple) and r[1] and r[1][0] == "indirect":
+                    # called through a function pointer that (for this variant) is the variant's own constructor
+                    fp = [x for x in sym_walk(r[1]) if isinstance(x, tuple) and x[:2] == ("const", "fn")]
+                    same_variant = len(fp) == 1 and strip_generics(fp[0][2]).endswith(f"common::Matcher::{v}")
+                sans = [x for x in sym_walk(r) if isinstance(x, tuple) and x and x[0] == "call" and sym_is_call(x, "formatting::sanitize_metric_name")]
+                own = len(sans) == 1 and f"'{v}'" in repr(sans[0][2][0]) and "('arg', 0" in repr(sans[0][2][0])
+                if sp.resolved_switches < 1 or not same_variant or not own:
+                    bad.append((v, sym_str(r)[:60]))
             chk.ob("C15.b", sn.path, arms is not None and not bad, "sanitized() keeps the variant and sanitises its string" if arms is not None and not bad else f"sanitized() changes the matcher kind or does not sanitise: {bad}", sn.loc())
         sb = one_method(chk, "C15.b", p, f"{P}::exporter::builder::PrometheusBuilder", "set_buckets_for_metric")
         if sb:
